@@ -413,6 +413,9 @@ pub fn replay_file(ctx: &Ctx, path: &str) -> i32 {
             return 4;
         }
     }
+    if case.get("checks").and_then(|x| x.as_str()) == Some("c16") {
+        return super::c16::replay(case);
+    }
     if case.get("kind").is_some() {
         // property-specific replay
         return super::replay_special(ctx, case);
